@@ -226,9 +226,14 @@ where
                                             );
                                         },
                                         Message::Data(data) => {
-                                            if taken.load(AtomicOrdering::Acquire) < max {
-                                                let taken =
-                                                    taken.fetch_add(1, AtomicOrdering::AcqRel) + 1;
+                                            // reserve a slot atomically: two racing deliveries must
+                                            // not both pass a separate check of the counter
+                                            if let Ok(taken) = taken.fetch_update(
+                                                AtomicOrdering::AcqRel,
+                                                AtomicOrdering::Acquire,
+                                                |taken| (taken < max).then(|| taken + 1),
+                                            ) {
+                                                let taken = taken + 1;
                                                 call!(
                                                     sink,
                                                     Message::Data(data),
